@@ -52,6 +52,14 @@ def build_positive(rng, g):
         args = ", ".join("%s[%s]" % (nm, G.int_expr_for(k, depth=rng.choice([0, 0, 1]))) for k in idx)
         lines.append("G(%s) | 0" % args)
         lines.append("H(%s, k=%s) | [1, 2]" % (nm, nm))
+    for nm in arrays:
+        if rng.random() < 0.3:
+            # declare the array again (same size, new values) and read every element again
+            vt, rows, cols, hp = G.arrays[nm]
+            t = G.decl_array(vartype=vt, rows=rows, cols=cols, name=nm, shape=rng.random() < 0.5, param_p=0.0)
+            if t:
+                lines.extend(t.split("\n"))
+                lines.append("G2(%s) | 0" % ", ".join("%s[%d]" % (nm, k) for k in range(rows * cols)))
     for nm, vt in list(G.scalars.items()):
         lines.append("S(%s) | 3" % nm)
     return gen.render(lines, rng, layout=0.2), G
